@@ -388,6 +388,16 @@ def gen_C16(rng, count, tier):
                     yield ("range", " ".join(batch)); batch = []; n += 1
     if batch:
         yield ("range", " ".join(batch)); n += 1
+    # copy-with-new-size over a small cube (the copy constructor keeps the raw bounds)
+    batch = []
+    for f in range(-3, 7):
+        for t in range(-3, 7):
+            for s2 in range(-2, 7):
+                batch.append("c:%d:%d:%d:%d" % (f, t, pick(rng, [-1, 5, 100]), s2))
+                if len(batch) == 60:
+                    yield ("range", " ".join(batch)); batch = []; n += 1
+    if batch:
+        yield ("range", " ".join(batch)); n += 1
     # all strings over a small alphabet up to length 5 (quick) / 6
     alpha = [b"0", b"7", b"-", b" ", b"x", b"1"]
     L = 5 if tier == "quick" else 6
@@ -479,8 +489,13 @@ def gen_route(rng, count, accept_p):
         if rng.random() < 0.05:
             t = pick(rng, ["/", "", "*", "//", "/a//b"])
         toks.append("req:" + hx(t.encode()))
-        if rng.random() < 0.04:
+        r = rng.random()
+        if r < 0.04:
             toks.append("noroot")
+        elif r < 0.12:
+            toks.append("late")          # handler installed after the connection was accepted
+        elif r < 0.16:
+            toks.append("unsetlate")     # handler removed after the connection was accepted
         yield ("route", " ".join(toks))
 
 
@@ -756,7 +771,7 @@ def gen_C17(rng, count, tier):
 
 # ------------------------------------------------------------------------------------ C12 / C13
 
-PSEG = ["a", "api", "x%20y", "caf%C3%A9", "a%0d%0aInjected:%20x", "%3F", "%23", "a+b", "%25", "%2f", "v1", "", "b;c", "a=b", "%41"]
+PSEG = ["a", "api", "x%20y", "r%2520f", "a%252Fb", "100%25", "caf%C3%A9", "a%0d%0aInjected:%20x", "%3F", "%23", "a+b", "%25", "%2f", "v1", "", "b;c", "a=b", "%41"]
 PHDR = [b"Host: example", b"Accept: */*", b"X-A: 1", b"x-a: 2", b"X-Forwarded-For: 9.9.9.9", b"X-Forwarded-For: 8.8.8.8, 7.7.7.7",
         b"X-Real-IP: 5.5.5.5", b"Cookie: a=b; c=d", b"X-Empty: x", b"Connection: close"]
 
@@ -771,6 +786,8 @@ def proxy_request(rng, with_body=True):
         h = pick(rng, PHDR)
         hs.append(h)
     n = pick(rng, [0, 0, 3, 10, 40]) if with_body else 0
+    if with_body and rng.random() < 0.06:
+        n = pick(rng, [65536, 65537, 70000, 150000])          # more than one 64 KiB read per event
     body = bytes((j * 5 + 1) % 251 for j in range(n))
     if n or rng.random() < 0.3:
         hs.append(b"Content-Length: %d" % n)
@@ -783,7 +800,8 @@ def gen_C12(rng, count, tier):
         head, body = proxy_request(rng)
         stream = head + b"\r\n\r\n" + body
         h = len(head)
-        segs = cuts(rng, stream, marks=(h + 4, h + 4 + len(body) // 2, h + 2))
+        segs = cuts(rng, stream, marks=(h + 4, h + 4 + len(body) // 2, h + 2)) if len(body) < 1000 else \
+            pick(rng, [[stream], [stream[:h + 4], stream[h + 4:]], [stream[:h + 4 + 100], stream[h + 4 + 100:]]])
         evs = ["new"]
         # turns between segments decide whether body bytes arrive before or after `connected`
         for s in segs:
